@@ -226,7 +226,8 @@ class Ctx:
                  "cluster_label_assignment": "Proofs/GenEquivLA", "solver": "Proofs/GenEquivSV", "cluster_metrics": "Proofs/GenEquivCM",
                  "solver_loop": "Proofs/GenEquivSL", "likelihood": "Proofs/GenEquivLK", "main_loop_results": "Proofs/GenEquivMR",
                  "front_single": "Proofs/GenEquivFE", "front_joint": "Proofs/GenEquivFE",
-                 "cluster_maintenance": "Proofs/GenEquivCR", "graphical_lasso": "Proofs/GenEquivGL"}
+                 "cluster_maintenance": "Proofs/GenEquivCR", "graphical_lasso": "Proofs/GenEquivGL",
+                 "matrix_compression": "Proofs/GenEquivMC"}
         self.coq_deps = list(coq_deps) + [equiv[g] for g in self.gen]
         t_pl = time.time()
         try:
